@@ -4,6 +4,7 @@ import (
 	"context"
 	"fmt"
 	"io"
+	"log/slog"
 	"net"
 	"time"
 
@@ -19,14 +20,14 @@ const ProxyTCP = "127.0.0.1:9000"
 
 // ConnRec records what the handler reported for one accepted connection.
 type ConnRec struct {
-	Remote   string
-	Order    []string // call order: "auth:<id>", "probe:<status>/<drain>/<n>", "closed:<status>"
-	Auth     []string
-	Probes   []ProbeRec
-	Closed   []ClosedRec
-	Srv      *vnet.TCPConn // server side socket
+	Remote           string
+	Order            []string // call order: "auth:<id>", "probe:<status>/<drain>/<n>", "closed:<status>"
+	Auth             []string
+	Probes           []ProbeRec
+	Closed           []ClosedRec
+	Srv              *vnet.TCPConn // server side socket
 	HandleReturnedAt time.Duration
-	AuthAt   []time.Duration
+	AuthAt           []time.Duration
 }
 
 type ProbeRec struct {
@@ -73,9 +74,9 @@ type TCP struct {
 	Conns   []*ConnRec
 	serve   *vrt.Thread
 
-	Running          int  // handlers currently running
-	ServeReturned    bool
-	RunningAtReturn  int  // handlers still running when StreamServe returned
+	Running         int // handlers currently running
+	ServeReturned   bool
+	RunningAtReturn int // handlers still running when StreamServe returned
 	// Accepted / Finished: connections StreamServe has accepted / whose handler has returned;
 	// UnfinishedAtReturn: their difference at the moment StreamServe returned (handlers that were
 	// still running, or had not even started)
@@ -83,8 +84,8 @@ type TCP struct {
 	// FailHandler: the handling of a connection from this remote address fails (panics) before the
 	// stream handler runs: the recovery path of StreamServe
 	FailHandler func(remote string) bool
-	WrapMetrics      func(conn transport.StreamConn, rec *ConnRec) service.TCPConnMetrics
-	shared           service.StreamListener
+	WrapMetrics func(conn transport.StreamConn, rec *ConnRec) service.TCPConnMetrics
+	shared      service.StreamListener
 	// Svc: connections are handled by a service built with NewShadowsocksService, the way the
 	// server builds its services (UseService); the metrics it asks for are the records
 	Svc     service.Service
@@ -92,9 +93,12 @@ type TCP struct {
 }
 
 // UseService makes the world handle its connections through service.NewShadowsocksService.
-func (w *TCP) UseService() {
+func (w *TCP) UseService(l *slog.Logger) {
 	w.svcRecs = map[string]*ConnRec{}
 	opts := []service.Option{service.WithCiphers(w.List), service.WithMetrics(&svcMetrics{w})}
+	if l != nil {
+		opts = append(opts, service.WithLogger(l))
+	}
 	if w.Cache != nil {
 		opts = append(opts, service.WithReplayCache(w.Cache))
 	}
@@ -312,11 +316,11 @@ func (t *Target) ReadN(i int, c *vnet.TCPConn, n int) error {
 
 // Client is a scripted TCP client.
 type Client struct {
-	C      *vnet.TCPConn
-	Got    []byte        // wire bytes received from the proxy
-	EOFAt  time.Duration // when the client saw the proxy's FIN (-1: never)
-	RSTAt  time.Duration
-	Err    string
+	C     *vnet.TCPConn
+	Got   []byte        // wire bytes received from the proxy
+	EOFAt time.Duration // when the client saw the proxy's FIN (-1: never)
+	RSTAt time.Duration
+	Err   string
 }
 
 func Dial(from string) *Client {
